@@ -122,9 +122,72 @@ func aliasProbe(spec *rspec.Spec, adj *nri.ContainerAdjustment) (fail string, pr
 	return fail, probed
 }
 
-// runHistory applies the adjustments one after another to ONE generator over a fresh copy
-// of the spec. With judge set, every step is compared with the model (folded step by step
-// from the state the implementation actually produced) and followed by the aliasing probe.
+// harnessGen is one generator under test over the caller's spec, with the harness's callbacks.
+type harnessGen struct {
+	xg       *xgen.Generator
+	rg       *rgen.Generator
+	step     int        // current step number (names what the injector appends)
+	cdiCalls [][]string // names handed to the injector in the current step
+}
+
+// newHarnessGen builds the generator the way a runtime does: over the caller's *Spec, with a
+// CDI injector (records the names; fails for an unresolvable device, otherwise edits the
+// spec it is handed when inj is set), class resolvers (fail for an unknown class) and an
+// annotation filter (rejects one forbidden annotation, passes everything else unchanged).
+func newHarnessGen(spec *rspec.Spec, fromSpec bool, inj *Inject) *harnessGen {
+	h := &harnessGen{}
+	if fromSpec {
+		g := rgen.NewFromSpec(spec)
+		h.rg = &g
+	} else {
+		h.rg = &rgen.Generator{Config: spec}
+	}
+	h.xg = xgen.SpecGenerator(h.rg,
+		xgen.WithBlockIOResolver(resolveBlockIO),
+		xgen.WithRdtResolver(resolveRdt),
+		xgen.WithAnnotationFilter(func(m map[string]string) (map[string]string, error) {
+			if _, bad := m[failAnnotation]; bad {
+				return nil, fmt.Errorf("annotation %q is not allowed", failAnnotation)
+			}
+			return m, nil
+		}),
+		xgen.WithCDIDeviceInjector(func(s *rspec.Spec, names []string) error {
+			h.cdiCalls = append(h.cdiCalls, append([]string(nil), names...))
+			for _, n := range names {
+				if n == failCDIName {
+					return fmt.Errorf("unresolvable CDI device %q", n)
+				}
+			}
+			inj.apply(s, h.step) // a real injector edits the spec it is handed
+			return nil
+		}),
+	)
+	return h
+}
+
+func (h *harnessGen) adjust(step int, adj *nri.ContainerAdjustment) (err error, panicked any) {
+	defer func() {
+		if p := recover(); p != nil {
+			panicked = p
+		}
+	}()
+	h.step, h.cdiCalls = step, nil
+	return h.xg.Adjust(adj), nil
+}
+
+// runHistory applies the adjustments one after another to ONE generator created over a
+// fresh copy of the spec. The result of every step is read through the pointer the harness
+// handed to the generator (a runtime keeps its *Spec; what the generator holds internally
+// is not observable to it).
+//
+// With judge set, every step that is expected to succeed is compared with the model
+// (folded step by step from the state of the caller's spec before the step) and followed by
+// the aliasing probe. A step carrying a failure token may fail: nothing is demanded of what
+// a failed Adjust leaves in the spec (the statement speaks about applied adjustments); the
+// state it left is simply the spec the next step starts from. The steps AFTER a failed one
+// are judged like any other ("requested ... changes appear in the spec with the requested
+// values") and must in addition equal what a FRESH generator over a copy of the same spec
+// state gives for the same adjustment ("the same inputs always give the same spec").
 // shared, when non-nil, supplies the adjustment objects (the same ones as in earlier
 // histories) instead of fresh ones.
 func runHistory(specJSON []byte, steps []Adj, fromSpec bool, inj *Inject, shared []*nri.ContainerAdjustment, judge, probe bool) (results []stepResult, out ev.Outcome) {
@@ -132,69 +195,50 @@ func runHistory(specJSON []byte, steps []Adj, fromSpec bool, inj *Inject, shared
 	if err := json.Unmarshal(specJSON, spec); err != nil {
 		return nil, ev.Outcome{Excluded: "spec not decodable"}
 	}
-	var rg *rgen.Generator
-	if fromSpec {
-		g := rgen.NewFromSpec(spec)
-		rg = &g
-	} else {
-		rg = &rgen.Generator{Config: spec}
-	}
-	step := 0
-	var cdiCalls [][]string
-	xg := xgen.SpecGenerator(rg,
-		xgen.WithBlockIOResolver(resolveBlockIO),
-		xgen.WithRdtResolver(resolveRdt),
-		xgen.WithCDIDeviceInjector(func(s *rspec.Spec, names []string) error {
-			if s != rg.Config {
-				return fmt.Errorf("CDI injector was handed a different spec")
-			}
-			cdiCalls = append(cdiCalls, append([]string(nil), names...))
-			inj.apply(s, step) // a real injector edits the spec it is handed
-			return nil
-		}),
-	)
-	adjust := func(adj *nri.ContainerAdjustment) (err error, panicked any) {
-		defer func() {
-			if p := recover(); p != nil {
-				panicked = p
-			}
-		}()
-		return xg.Adjust(adj), nil
-	}
-	for step = 0; step < len(steps); step++ {
+	h := newHarnessGen(spec, fromSpec, inj)
+	afterFailure := false
+	for step := 0; step < len(steps); step++ {
 		a := &steps[step]
+		mayFail := a.failToken() != ""
 		var orig, want *rspec.Spec
 		var wantCDI []string
 		if judge {
-			orig, want = copySpec(rg.Config), copySpec(rg.Config)
-			wantCDI = applyModel(want, a, inj, step)
+			orig = copySpec(spec)
+			if !mayFail {
+				want = copySpec(spec)
+				wantCDI = applyModel(want, a, inj, step)
+			}
 		}
 		adj := a.ToNRI()
 		if shared != nil {
 			adj = shared[step]
 		}
-		cdiCalls = nil
-		err, panicked := adjust(adj)
+		err, panicked := h.adjust(step, adj)
 		if panicked != nil {
 			return nil, ev.Failf("Adjust panicked (step %d of the history): %v", step, panicked)
 		}
-		if err != nil {
-			return nil, ev.Failf("Adjust failed (step %d of the history): %v", step, err)
+		if err != nil && !mayFail {
+			return nil, ev.Failf("Adjust failed (step %d of the history) although every callback succeeded: %v", step, err)
 		}
-		if rg.Config == nil {
-			return nil, ev.Failf("generator lost its spec (step %d of the history)", step)
+		results = append(results, stepResult{canon: fmt.Sprintf("%s failed=%v cdi=%s", canon(spec), err != nil, canon(h.cdiCalls)), cdiCalls: h.cdiCalls})
+		if mayFail {
+			if err != nil {
+				afterFailure = true
+			} else {
+				out.Lenient = append(out.Lenient, "failing_callback_but_adjust_succeeded")
+			}
+			continue // nothing is demanded of a step whose callback failed
 		}
-		results = append(results, stepResult{canon: canon(rg.Config) + " cdi=" + canon(cdiCalls), cdiCalls: cdiCalls})
 		if judge {
 			// CDI names as handed to the injector
 			if wantCDI == nil {
-				if len(cdiCalls) != 0 {
-					return nil, ev.Failf("step %d: CDI injector called although no CDI device was requested: %s", step, canon(cdiCalls))
+				if len(h.cdiCalls) != 0 {
+					return nil, ev.Failf("step %d: CDI injector called although no CDI device was requested: %s", step, canon(h.cdiCalls))
 				}
-			} else if len(cdiCalls) != 1 || !reflect.DeepEqual(cdiCalls[0], wantCDI) {
-				return nil, ev.Failf("step %d: CDI devices: requested %s, injector was handed %s", step, canon(wantCDI), canon(cdiCalls))
+			} else if len(h.cdiCalls) != 1 || !reflect.DeepEqual(h.cdiCalls[0], wantCDI) {
+				return nil, ev.Failf("step %d: CDI devices: requested %s, injector was handed %s", step, canon(wantCDI), canon(h.cdiCalls))
 			}
-			got := copySpec(rg.Config)
+			got := copySpec(spec)
 			gotCopy, wantCopy := canon(got), canon(want)
 			var injected *Inject
 			if len(a.CDI) > 0 {
@@ -203,13 +247,31 @@ func runHistory(specJSON []byte, steps []Adj, fromSpec bool, inj *Inject, shared
 			fail, lenient := compare(orig, want, got, a, injected, step)
 			if fail != "" {
 				o := ev.Failf("step %d: %s", step, fail)
+				if afterFailure {
+					o = ev.Failf("step %d (after an earlier Adjust on this generator failed; spec read through the caller's pointer): %s", step, fail)
+				}
 				o.History = map[string]any{"result": json.RawMessage(gotCopy), "model": json.RawMessage(wantCopy), "before_step": orig}
 				return nil, o
 			}
 			out.Lenient = append(out.Lenient, lenient...)
+			if afterFailure {
+				// the same spec state and the same adjustment through a fresh generator
+				fresh := newHarnessGen(orig, fromSpec, inj)
+				ferr, fpanic := fresh.adjust(step, a.ToNRI())
+				if ferr != nil || fpanic != nil {
+					return nil, ev.Failf("step %d: a fresh generator over the same spec fails on this adjustment: %v %v", step, ferr, fpanic)
+				}
+				if fc := canon(orig); fc != gotCopy {
+					var d []string
+					diff("", generic([]byte(fc)), generic([]byte(gotCopy)), &d, 6)
+					o := ev.Failf("step %d: the same inputs gave different specs: after an earlier failed Adjust the generator gives another result than a fresh generator over the same spec: %s", step, strings.Join(d, "; "))
+					o.History = map[string]any{"reused_generator": json.RawMessage(gotCopy), "fresh_generator": json.RawMessage(fc)}
+					return nil, o
+				}
+			}
 		}
 		if probe {
-			fail, _ := aliasProbe(rg.Config, adj)
+			fail, _ := aliasProbe(spec, adj)
 			if fail != "" {
 				return nil, ev.Failf("step %d: %s", step, fail)
 			}
@@ -996,6 +1058,21 @@ func classify(c *C13Case) (classes []string, nontrivial bool) {
 				}
 			}
 		}
+	}
+	failedSeen, successAfterFailure := false, false
+	for i := range steps {
+		if tok := steps[i].failToken(); tok != "" {
+			add("failing_callback:" + tok)
+			failedSeen = true
+		} else if failedSeen {
+			successAfterFailure = true
+		}
+	}
+	if failedSeen {
+		add("history:with_failing_step")
+	}
+	if successAfterFailure {
+		add("history:successful_step_after_failing_step")
 	}
 	if injectorFired {
 		add("injector:edits_spec")
